@@ -24,7 +24,7 @@ CHUNK = {"quick": 40, "thorough": 200}
 PROBES = ["op_mask", "op_base64", "op_base64url", "op_netbios", "op_netbiosu", "op_prepend", "op_append", "empty_affix",
           "term_header", "term_parameter", "term_print", "term_uri_append", "uri_append_nonempty_initial_uri",
           "static_parameter", "static_header", "encoder_repeated", "three_build_blocks", "peer_unpadded_base64url",
-          "empty_payload", "binary_affix", "session_population"]
+          "empty_payload", "binary_affix", "session_population", "transform_without_initial_request"]
 RULE = ("seeded plans: 85% exchange plans - three programs (every ordering/repetition of the seven encoders up to length 6, "
         "prepend/append arguments incl. empty and binary, each termination kind, 1-3 build blocks, static headers/"
         "parameters) compiled to the binary setting encoding, 4-10 messages with payloads of 0-4096 bytes and arbitrary "
@@ -105,7 +105,8 @@ def generate(rng, tier, index):
             vals = {"metadata": hx(_payload(rng, 300)), "output": hx(_payload(rng, 300))}
         else:
             vals = {"id": hx(rng.choice([str(rng.getrandbits(31)).encode(), _payload(rng, 20)])), "output": hx(_payload(rng))}
-        initial = {"uri": hx(rng.choice([b"", b"", b"/load", b"/a/b.php", _payload(rng, 8)])),
+        initial = {"none": rng.random() < 0.3,
+                   "uri": hx(rng.choice([b"", b"", b"/load", b"/a/b.php", _payload(rng, 8)])),
                    "headers": [[hx(b"User-Agent"), hx(b"UA/1.0")]] if rng.random() < 0.6 else [],
                    "params": [[hx(b"z"), hx(b"1")]] if rng.random() < 0.3 else [],
                    "body": hx(rng.choice([b"", b"", b"old-body"]))}
@@ -170,6 +171,7 @@ def execute(plan: dict) -> Result:
                 res.probes["three_build_blocks"] += 1
             if len(encs) >= 2 or any(s[0] in ("header", "parameter", "uri_append") for s in steps):
                 res.nontrivial = True
+        produced = []
         for mi, m in enumerate(plan["messages"]):
             prog = m["prog"]
             steps = cfg[prog]
@@ -217,8 +219,14 @@ def execute(plan: dict) -> Result:
                                 f"library recover raised {e!r} on a reference-encoded server output; program {steps}")
                 continue
             # ---- client programs
-            init_req = HttpRequest(method=b"GET", uri=unhx(ini["uri"]), params={unhx(k): unhx(v) for k, v in ini["params"]},
-                                   headers={unhx(k): unhx(v) for k, v in ini["headers"]}, body=unhx(ini["body"]))
+            if ini.get("none"):
+                # no initial request: the library starts from its own empty request
+                ini = {"none": True, "uri": "", "headers": [], "params": [], "body": ""}
+                init_req = None
+                res.probes["transform_without_initial_request"] += 1
+            else:
+                init_req = HttpRequest(method=b"GET", uri=unhx(ini["uri"]), params={unhx(k): unhx(v) for k, v in ini["params"]},
+                                       headers={unhx(k): unhx(v) for k, v in ini["headers"]}, body=unhx(ini["body"]))
             uri_nonempty = bool(unhx(ini["uri"])) and any(s[0] == "uri_append" for s in steps)
             if uri_nonempty:
                 res.probes["uri_append_nonempty_initial_uri"] += 1
@@ -231,6 +239,18 @@ def execute(plan: dict) -> Result:
                             f"transform raised {e!r} for program {steps}")
                 continue
             res.log.log("cli_lib", mi, req.uri, sorted(req.params.items()), sorted(req.headers.items()), req.body)
+            produced.append((mi, prog, steps, req, want, unhx(ini["uri"])))
+            if init_req is None:
+                # nothing but what the program prescribes may be in a message built from scratch
+                allowed_h = {rc.arg(s_).partition(b": ")[0] for s_ in steps if s_[0] in ("_header", "_hostheader")} | \
+                            {rc.arg(s_) for s_ in steps if s_[0] == "header"}
+                allowed_p = {rc.arg(s_).partition(b"=")[0] for s_ in steps if s_[0] == "_parameter"} | \
+                            {rc.arg(s_) for s_ in steps if s_[0] == "parameter"}
+                extra = [k for k in req.headers if k not in allowed_h] + [k for k in req.params if k not in allowed_p]
+                if extra:
+                    res.violate(("C04", "stale_parts_in_fresh_message", prog),
+                                f"a {prog} message transformed without an initial request carries parts the program does not "
+                                f"prescribe: {extra!r:.200} (message #{mi} of this history; program {steps})")
             try:
                 back = rc.ref_decode_request(steps, req.uri, list(req.params.items()), list(req.headers.items()), req.body,
                                              [unhx(ini["uri"])], uri_pct=False)
@@ -274,6 +294,18 @@ def execute(plan: dict) -> Result:
                 res.violate(_sig("ref_to_lib", "raised", e, sigtail, uri_nonempty),
                             f"library recover raised {e!r} on a reference-encoded {prog} message; program {steps}; "
                             f"initial uri {unhx(ini['uri'])!r}")
+        # ---- history check: messages produced earlier must still decode to what was put in (no shared mutable state)
+        for mi, prog, steps, req, want, base in produced:
+            try:
+                back = rc.ref_decode_request(steps, req.uri, list(req.params.items()), list(req.headers.items()), req.body,
+                                             [base], uri_pct=False)
+            except rc.RefDecodeError as e:
+                back = {"error": str(e)}
+            if back != want:
+                res.violate(("C04", "earlier_message_changed_by_later_transform", prog),
+                            f"{prog} message #{mi} no longer decodes to its data after later transform() calls on the same "
+                            f"decoder: {str(back)[:200]} vs {str(want)[:200]}")
+                break
     return res
 
 
